@@ -16,8 +16,35 @@ static size_t hc_cap = 0;
 static char *W[MAXW];
 static int NW;
 
+/* watchdog: an op that does not return within HC_WATCHDOG seconds (default 40) ends the harness; check.py then
+ * reports the op as a crash ("harness stopped") with the case as replay, instead of waiting for its own long
+ * time-out.  A harness with its own timing defines HC_NO_WATCHDOG. */
+#ifndef HC_NO_WATCHDOG
+#include <signal.h>
+#include <unistd.h>
+static void hc_on_alarm(int sig)
+{
+	static const char msg[] = "HANG: the operation did not return within the watchdog time\n";
+	(void)sig;
+	if (write(2, msg, sizeof(msg) - 1) < 0) {}
+	_exit(124);
+}
+#endif
+
 static int hc_read(void)
 {
+#ifndef HC_NO_WATCHDOG
+	static int armed = -1;
+	if (armed < 0)
+	{
+		const char *w = getenv("HC_WATCHDOG");
+		armed = w ? atoi(w) : 40;
+		if (armed > 0)
+			signal(SIGALRM, hc_on_alarm);
+	}
+	if (armed > 0)
+		alarm((unsigned)armed);
+#endif
 	ssize_t n = getline(&hc_line, &hc_cap, stdin);
 	if (n < 0)
 		return 0;
